@@ -106,7 +106,7 @@ pub fn alphabet_mode(mode: u8) -> Vec<SubjectAct> {
     };
     let paths: Vec<&'static str> = match mode {
         1 => vec!["t"],
-        2 => vec!["t", "s/u", "/t"],
+        2 => vec!["t", "t/", "/t"],
         _ => vec!["t", "s/u"],
     };
     let mut a = Vec::new();
